@@ -252,6 +252,12 @@ func runParsed(ctx context.Context, p numscript.ParseResult, vars map[string]str
 		return out
 	}
 	out.St = "ok"
+	// a result must be usable by the caller: rendering every amount and value happens inside the recover scope
+	for _, po := range res.Postings {
+		if po.Amount != nil {
+			_ = po.Amount.String()
+		}
+	}
 	out.Post = res.Postings
 	for k, v := range res.Metadata {
 		out.TxMeta[k] = v.String()
